@@ -161,12 +161,17 @@ Definition ifagg (fn : fname) (ps : list (option bool * value)) : option value :
     end
   end.
 
+Lemma isx_assoc p s : (p ++ "index_search" ++ s)%string = (isx p ++ s)%string.
+Proof. unfold isx. generalize "index_search"%string as a. intros a. induction p as [|ch p IH]; [reflexivity|]. cbn [append]. now rewrite IH. Qed.
+
 Section AGGEV.
   Variable re_match : string -> string -> bool.
   Variable parse_float : string -> option Q.
   Variable hash64 : string -> Z.
   Variable cte : env.
-  Notation EV := (ev re_match parse_float hash64 cte al2 ["trace_id"]).
+  Variable p : string.      (* prefix of the operand ("" for a one-selector search) *)
+  Variable wts : bool.      (* the statement carries the max_timestamp_ns column of an operand *)
+  Notation EV := (ev re_match parse_float hash64 cte (al2 wts) ["trace_id"]).
 
   Lemma ev_ifagg fn f self g r x cnd : is_ifagg fn = true ->
     EV (S f) true self g r (Fn fn [x; cnd]) =
@@ -188,18 +193,18 @@ Section AGGEV.
   Variable m0 : mspan.
   Variable rest : list mspan.
   Notation g := (m0 :: rest).
-  Notation G := (map qrow (m0 :: rest)).
+  Notation G := (map (qrow p) (m0 :: rest)).
 
   (* the comparison against the printed number, around any aggregate value *)
   Lemma having_cmp a va c txt th :
     ordered c = true -> num_of_text txt = Some th ->
-    EV 38 true "" G (qrow m0) a = Some va -> (va = VNull \/ exists x, va = VNum x) ->
-    exists v t, EV ev_fuel true "" G (qrow m0) (LOp OAnd [LOp (lop_of c) [a; FloatV txt]]) = Some v
+    EV 38 true "" G (qrow p m0) a = Some va -> (va = VNull \/ exists x, va = VNum x) ->
+    exists v t, EV ev_fuel true "" G (qrow p m0) (LOp OAnd [LOp (lop_of c) [a; FloatV txt]]) = Some v
                 /\ truth v = Some t
                 /\ is_true3 t = match va with VNum x => cmp_Q c x th | _ => false end.
   Proof.
-    intros Ho Ht Ha Hva. unfold ev_fuel. change 40 with (S (S 38)). revert Ha. set (GG := map qrow (m0 :: rest)). intros Ha.
-    rewrite ev_LOp. cbn [map]. rewrite (ev_LOp_cmp re_match parse_float hash64 cte al2 ["trace_id"] 38 true "" GG (qrow m0) c a (FloatV txt) Ho).
+    intros Ho Ht Ha Hva. unfold ev_fuel. change 40 with (S (S 38)). revert Ha. set (GG := map (qrow p) (m0 :: rest)). intros Ha.
+    rewrite ev_LOp. cbn [map]. rewrite (ev_LOp_cmp re_match parse_float hash64 cte (al2 wts) ["trace_id"] 38 true "" GG (qrow p m0) c a (FloatV txt) Ho).
     rewrite Ha. change 38 with (S 37). rewrite ev_FloatV, Ht.
     destruct Hva as [->|[x ->]].
     - change (vcmp (lop_of c) VNull (VNum th)) with (Some VNull). cbn [all_some map truth and3 of3].
@@ -210,15 +215,16 @@ Section AGGEV.
 
   (* count(distinct index_search.span_id) *)
   Lemma ev_count_spans : NoDup (map m_span g) ->
-    EV 38 true "" G (qrow m0) (Fn FToFloat64 [Fn FCount [Distinct (Id "index_search.span_id")]])
+    EV 38 true "" G (qrow p m0) (Fn FToFloat64 [Fn FCount [Distinct (Id (p ++ "index_search.span_id")%string)]])
     = Some (VNum (inject_Z (Z.of_nat (List.length g)))).
   Proof.
     intros Hnd. change 38 with (S (S 36)). rewrite ev_ToFloat64, ev_count_distinct. rewrite map_map.
     rewrite (all_some_map_ext _ (fun m => VStr (m_span m))).
     - rewrite (non_null_map_nn (fun m => VStr (m_span m))) by reflexivity.
       rewrite <- (map_map m_span VStr), (vnodup_strs _ Hnd), map_length. reflexivity.
-    - intros m _. change 36 with (S 35). rewrite ev_Id_row. change (String.eqb "index_search.span_id" "") with false. cbv iota.
-      change (lookup_alias "index_search.span_id" al2) with (@None expr). apply q_qspan.
+    - intros m _. change 36 with (S 35). rewrite ev_Id_row. change (p ++ "index_search.span_id")%string with (p ++ "index_search" ++ ".span_id")%string. rewrite (isx_assoc p ".span_id").
+      rewrite (eqb_dot _ "") by (try reflexivity; apply isx_dotted; reflexivity). cbv iota.
+      rewrite al2_dotted by (apply isx_dotted; reflexivity). apply q_qspan.
   Qed.
 
   (* avgIf / sumIf / minIf / maxIf (agg_val, isNotNull(agg_val)) *)
@@ -227,15 +233,15 @@ Section AGGEV.
   Definition gq : list Q := qs_of (map av g).
 
   Lemma ev_ifagg_val fn : is_ifagg fn = true ->
-    EV 38 true "" G (qrow m0) (Fn fn [Id "agg_val"; Fn FIsNotNull [Id "agg_val"]])
+    EV 38 true "" G (qrow p m0) (Fn fn [Id "agg_val"; Fn FIsNotNull [Id "agg_val"]])
     = ifagg fn (map (fun v => (Some (negb (is_null v)), v)) (map av g)).
   Proof.
-    intros Hfn. change 38 with (S 37). rewrite (ev_ifagg fn 37 "" G (qrow m0) _ _ Hfn). rewrite !map_map.
+    intros Hfn. change 38 with (S 37). rewrite (ev_ifagg fn 37 "" G (qrow p m0) _ _ Hfn). rewrite !map_map.
     rewrite (all_some_map_ext _ (fun m => (Some (negb (is_null (av m))), av m))); [reflexivity|].
     intros m Hm. destruct (Hav m Hm) as [Hm1 _].
-    assert (Hid : forall f, EV (S f) false "" [] (qrow m) (Id "agg_val") = Some (av m)).
+    assert (Hid : forall f, EV (S f) false "" [] (qrow p m) (Id "agg_val") = Some (av m)).
     { intros f. rewrite ev_Id_row. change (String.eqb "agg_val" "") with false. cbv iota.
-      change (lookup_alias "agg_val" al2) with (@None expr). rewrite q_agg. exact Hm1. }
+      rewrite al2_agg_val. rewrite q_agg. exact Hm1. }
     change 37 with (S 36). rewrite ev_IsNotNull. change 36 with (S 35). rewrite !Hid. now rewrite truth_vbool.
   Qed.
 
@@ -277,7 +283,7 @@ Proof. induction l as [|x l IH]; [reflexivity|]. cbn [map flat_map]. now rewrite
 
 Definition sql_fn (fn : aggfn) : fname :=
   match fn with AgAvg => FAvgIf | AgMax => FMaxIf | AgMin => FMinIf | AgSum => FSumIf | AgCount => FCount end.
-Lemma agg_expr_if fn : fn <> AgCount -> agg_expr fn "" = Fn (sql_fn fn) [Id "agg_val"; Fn FIsNotNull [Id "agg_val"]] /\ is_ifagg (sql_fn fn) = true.
+Lemma agg_expr_if fn p : fn <> AgCount -> agg_expr fn p = Fn (sql_fn fn) [Id "agg_val"; Fn FIsNotNull [Id "agg_val"]] /\ is_ifagg (sql_fn fn) = true.
 Proof. destruct fn; try congruence; intros _; split; reflexivity. Qed.
 
 (* the value the SQL aggregate has over the numbers gq, compared with th', against the reference over a permutation of them *)
@@ -370,9 +376,10 @@ Section AGG.
   Definition q2 : script := Script {| sel_attr := Some e; sel_agg := Some ag |} ao None.
   Notation attr := (g_attr ag).
 
-  Definition hv2 (txt : string) : expr := LOp OAnd [LOp (lop_of (g_cmp ag)) [agg_expr (g_fn ag) ""; FloatV txt]].
+  Definition hv2p (p txt : string) : expr := LOp OAnd [LOp (lop_of (g_cmp ag)) [agg_expr (g_fn ag) p; FloatV txt]].
+  Definition hv2 (txt : string) : expr := hv2p "" txt.
   Definition grouped2 (conds : list expr) (txt : string) : select :=
-    grouped_stmt [("index_search", stmt1 c e attr conds)] (Some (hv2 txt)) (lim_of c).
+    grouped_stmt "" false [("index_search", stmt1 c e attr conds)] (Some (hv2 txt)) (lim_of c).
 
   Lemma plan_agg_inv n s : plan q2 MSearch c n = Ok s ->
     agg_lacks_attr {| sel_attr := Some e; sel_agg := Some ag |} = false
@@ -389,7 +396,7 @@ Section AGG.
       destruct (agg_cmp_text ag) as [txt|er|] eqn:Et; cbn [bind]; try discriminate.
       destruct (comparison_fn_lop _ _ Ef) as [Ho ->].
       intros H. injection H as <-. split; [reflexivity|]. exists conds, txt. repeat split; try assumption.
-      unfold grouped2, hv2, index_limit, lim_of. destruct (Z.eqb (limit c) 0); reflexivity.
+      unfold grouped2, hv2, hv2p, index_limit, lim_of. destruct (Z.eqb (limit c) 0); reflexivity.
     - unfold attr_condition. rewrite Hc. cbn [bind]. discriminate.
     - unfold attr_condition. rewrite Hc. cbn [bind]. discriminate.
   Qed.
@@ -438,28 +445,28 @@ Section AGG.
     unfold mkey. now rewrite Et.
   Qed.
 
-  Lemma hv2_decides cte m0 rest : In (m0 :: rest) (group_rows same_tr T) ->
-    exists v t, ev re_match parse_float hash64 cte al2 ["trace_id"] ev_fuel true "" (map qrow (m0 :: rest)) (qrow m0) (hv2 txt) = Some v
+  Lemma hv2_decides cte p wts m0 rest : In (m0 :: rest) (group_rows same_tr T) ->
+    exists v t, ev re_match parse_float hash64 cte (al2 wts) ["trace_id"] ev_fuel true "" (map (qrow p) (m0 :: rest)) (qrow p m0) (hv2p p txt) = Some v
                 /\ truth v = Some t /\ is_true3 t = P2 (m0 :: rest).
   Proof.
     intros Hg. pose proof (group_perm m0 rest Hg) as Hperm.
     unfold agg_guard in Hguard. rewrite Htxt in Hguard.
     destruct (agg_threshold true ag) as [th|] eqn:Eth; [|discriminate].
     destruct (num_of_text txt) as [th'|] eqn:Etxt; [|discriminate]. apply Qeq_bool_iff in Hguard.
-    unfold P2, hv2. cbn [g_trace].
+    unfold P2, hv2p. cbn [g_trace].
     assert (Hcases : g_fn ag = AgCount \/ g_fn ag <> AgCount) by (destruct (g_fn ag); [now left|right; discriminate..]).
     destruct Hcases as [Efn|Hfn].
     - (* count *)
       unfold agg_sem. rewrite Eth, Efn.
-      destruct (having_cmp re_match parse_float hash64 cte m0 rest _ _ (g_cmp ag) txt th' Hord Etxt
-                  (ev_count_spans re_match parse_float hash64 cte m0 rest (group_spans_NoDup m0 rest Hg)) (or_intror (ex_intro _ _ eq_refl)))
+      destruct (having_cmp re_match parse_float hash64 cte p wts m0 rest _ _ (g_cmp ag) txt th' Hord Etxt
+                  (ev_count_spans re_match parse_float hash64 cte p wts m0 rest (group_spans_NoDup m0 rest Hg)) (or_intror (ex_intro _ _ eq_refl)))
         as [v [t [H1 [H2 H3]]]].
       exists v, t. split; [exact H1|]. split; [exact H2|]. rewrite H3.
       rewrite (Permutation_length Hperm), map_length. apply cmp_Q_compat. exact Hguard.
     - (* avg / sum / min / max over agg_val *)
       assert (Hattr : String.eqb attr "" = false).
       { unfold agg_lacks_attr in Hla. cbn [sel_agg] in Hla. destruct (g_fn ag); [congruence|exact Hla..]. }
-      destruct (agg_expr_if (g_fn ag) Hfn) as [Eexpr Hif]. rewrite Eexpr.
+      destruct (agg_expr_if (g_fn ag) p Hfn) as [Eexpr Hif]. rewrite Eexpr.
       set (av := fun m : mspan => match m_agg m with Some v => v | None => VNull end).
       assert (Hfav : forall sp, av (f sp) = num_or_null (agg_value parse_float attr sp)).
       { intros sp. unfold av. cbn [mspan_of m_agg]. now rewrite (agg_ref_value parse_float attr sp Hattr). }
@@ -468,7 +475,7 @@ Section AGG.
         split.
         - unfold av. cbn [mspan_of m_agg]. now rewrite (agg_ref_value parse_float attr sp Hattr).
         - rewrite Hfav. destruct (agg_value parse_float attr sp) as [q|]; [right; now exists q|now left]. }
-      pose proof (ev_ifagg_val re_match parse_float hash64 cte m0 rest av Hav (sql_fn (g_fn ag)) Hif) as Hev.
+      pose proof (ev_ifagg_val re_match parse_float hash64 cte p wts m0 rest av Hav (sql_fn (g_fn ag)) Hif) as Hev.
       rewrite (ifagg_nums m0 rest av Hav (sql_fn (g_fn ag)) Hif) in Hev.
       set (gqv := gq m0 rest av) in *.
       assert (Hpq : Permutation gqv (ref_vals parse_float attr (ms matched (m_trace m0)))).
@@ -485,12 +492,12 @@ Section AGG.
                                   | _ => (Qsum gqv / inject_Z (Z.of_nat (List.length gqv)))%Q
                                   end
                  end).
-      assert (Hev' : ev re_match parse_float hash64 cte al2 ["trace_id"] 38 true "" (map qrow (m0 :: rest)) (qrow m0)
+      assert (Hev' : ev re_match parse_float hash64 cte (al2 wts) ["trace_id"] 38 true "" (map (qrow p) (m0 :: rest)) (qrow p m0)
                         (Fn (sql_fn (g_fn ag)) [Id "agg_val"; Fn FIsNotNull [Id "agg_val"]]) = Some va).
       { rewrite Hev. unfold va. destruct gqv; reflexivity. }
       assert (Hva : va = VNull \/ exists x, va = VNum x).
       { unfold va. destruct gqv; [now left|right; eexists; reflexivity]. }
-      destruct (having_cmp re_match parse_float hash64 cte m0 rest _ va (g_cmp ag) txt th' Hord Etxt Hev' Hva) as [v [t [H1 [H2 H3]]]].
+      destruct (having_cmp re_match parse_float hash64 cte p wts m0 rest _ va (g_cmp ag) txt th' Hord Etxt Hev' Hva) as [v [t [H1 [H2 H3]]]].
       exists v, t. split; [exact H1|]. split; [exact H2|]. rewrite H3.
       rewrite (agg_sem_noncount parse_float ag th _ Eth Hfn). unfold va.
       exact (agg_decide (g_fn ag) (g_cmp ag) gqv _ th th' Hfn Hpq Hguard).
@@ -529,14 +536,14 @@ Section AGG.
       change (String.eqb "index_search" "index_grouped") with false. cbv iota.
       rewrite eval_sel_S. unfold grouped2. fold T.
       assert (Hal : having_aliases ev_fuel (hv2 txt) = []).
-      { unfold hv2. apply having_aliases_nil_LOp2; [destruct (g_fn ag); reflexivity|reflexivity]. }
-      rewrite (grouped_bridge re_match parse_float hash64 [(attrs_table c, map row_of_irow d)]
+      { unfold hv2, hv2p. apply having_aliases_nil_LOp2; [destruct (g_fn ag); reflexivity|reflexivity]. }
+      rewrite (grouped_bridge re_match parse_float hash64 [(attrs_table c, map row_of_irow d)] "" false
                  (eval_sel re_match parse_float hash64 [(attrs_table c, map row_of_irow d)] 11)
                  [("index_search", map mspan_row T)] T eq_refl (Some (hv2 txt)) P2 Hal).
       + rewrite Hans. cbn [option_map]. rewrite String.eqb_refl. rewrite map_map.
-        apply all_some_map_ext. intros g _. unfold g_row. cbn [lookup String.eqb Ascii.eqb Bool.eqb].
+        apply all_some_map_ext. intros g _. unfold g_row. cbn [app lookup String.eqb Ascii.eqb Bool.eqb].
         now rewrite all_some_VStr.
-      + intros h m0 rest' Hh Hg. injection Hh as <-. exact (hv2_decides conds Hc txt Hord Htxt Hla _ m0 rest' Hg).
+      + intros h m0 rest' Hh Hg. injection Hh as <-. exact (hv2_decides conds Hc txt Hord Htxt Hla _ "" false m0 rest' Hg).
       + discriminate.
     - rewrite sem_agg_round.
       exact (answer_ok T matched (mspan_of parse_float attr) (fun _ => eq_refl) (fun _ => eq_refl) (fun _ => eq_refl)
